@@ -251,7 +251,10 @@ class Interp:
         obj = getattr(builtins, last, None)
         if isinstance(obj, type):
             return {c.__name__ for c in obj.__mro__}
-        return {last}
+        known = {'DiGraph': {'DiGraph', 'Graph'}, 'MultiDiGraph': {'MultiDiGraph', 'MultiGraph', 'DiGraph', 'Graph'},
+                 'MultiGraph': {'MultiGraph', 'Graph'}, 'OrderedDict': {'OrderedDict', 'dict'}, 'defaultdict': {'defaultdict', 'dict'},
+                 'UserDict': {'UserDict', 'MutableMapping', 'Mapping'}}
+        return set(known.get(last, {last}))
 
     def isinstance_(self, v, classes) -> bool:
         if classes is TOP or v is TOP:
@@ -269,8 +272,13 @@ class Interp:
             mine = {type(v).__name__, 'object'}
         elif isinstance(v, AObj):
             mine = self.class_ancestors(v.cls)
+        elif isinstance(v, AOneShot):
+            mine = {'Iterator', 'Iterable', 'Generator', 'object'}
         else:
             mine = {'object'}
+        if isinstance(v, (list, tuple, set, frozenset, dict, str)):
+            mine |= {'Iterable', 'Collection', 'Sized', 'Container'} | ({'Sequence'} if isinstance(v, (list, tuple, str)) else set()) \
+                | ({'Mapping', 'MutableMapping'} if isinstance(v, dict) else set())
         for c in cl:
             if c is TOP:
                 if self.oracle.choose():
@@ -774,6 +782,8 @@ class Interp:
                     return AObj(recv.cls, {'nodes': {k: dict(v) for k, v in nodes.items()},
                                            'edges': {k: dict(v) for k, v in edges.items()}}, tag=recv.tag)
         if isinstance(recv, str) and last in _STR_METHODS:
+            args = [list(a_.items()) if isinstance(a_, AOneShot) else a_ for a_ in args]
+
             def concrete(x) -> bool:
                 return isinstance(x, (str, int)) or (isinstance(x, (list, tuple)) and all(concrete(y) for y in x))
             if all(concrete(a) for a in args) and not kwargs:
